@@ -941,6 +941,17 @@ def r_cache(m, rep, R):
             # are consumed: the canonical spelling rules:<kind> only arises for the right callback)
             _r_cache_core(m, rep, R, kind, cbparam, core_fn, core_name, bind, cache_term=V(pr[[i for i, p_ in enumerate(cxx.params_of(fn)) if 'cache' in (p_.type or '') or 'unordered_map' in (p_.dtype or '')][0]]) if any('cache' in (p_.type or '') or 'unordered_map' in (p_.dtype or '') for p_ in cxx.params_of(fn)) else V(m.p_cache), scaffold=lf['scaffold'])
             continue
+        if getattr(m, 'lookup_obj', None) is not None and kind not in m.lam:
+            lo = m.lookup_obj
+            # the method that asks this kind's callback: one shared method handed the callback, or one method per kind
+            cand = [a for a in lo['asks'] if a['cb'][0] == 'var' or m._members_resolved(a['cb']) == V(cbparam)]
+            if len(cand) != 1:
+                raise AnalysisError('%s: cannot tell which method of %s asks the %s callback' % (H, lo['class'], kind))
+            a = cand[0]
+            nm = lambda t_: t_[1] if t_[0] == 'var' else None
+            _r_cache_core(m, rep, R, kind, cbparam, a['node'], '%s::%s' % (lo['class'], a['name']), {'cb': nm(a['cb']), 'x': nm(a['x']), 'y': nm(a['y'])},
+                          cache_term=M(('this',), lo['cache_member']), scaffold=a['scaffold_member'], cb_term=a['cb'])
+            continue
         name = m.lam[kind]
         fn = _call_op(m, name)
         env = cxx.Env(fn)
@@ -965,7 +976,7 @@ def r_cache(m, rep, R):
         _r_cache_core(m, rep, R, kind, cbparam, core_fn, core_name, bind)
 
 
-def _r_cache_core(m, rep, R, kind, cbparam, core_fn, core_name, bind, cache_term=None, scaffold=None):
+def _r_cache_core(m, rep, R, kind, cbparam, core_fn, core_name, bind, cache_term=None, scaffold=None, cb_term=None):
     fn2 = core_fn
     env2 = cxx.Env(fn2)
     pr2 = [p.name for p in cxx.params_of(fn2)]
@@ -1023,8 +1034,8 @@ def _r_cache_core(m, rep, R, kind, cbparam, core_fn, core_name, bind, cache_term
     ok = bool(rets) and all(r is not None and canon(r) in good for r in rets)
     rep.check(ok, R, w2, 'cache:%s:return' % kind, '%s lookup returns the stored vector for the key' % kind,
               '%s lookup returns %s' % (kind, [canon(r) if r else None for r in rets]))
-    sc = [term(n, env2) for n in fn2.find('CallExpr') if strip(n.kids[0]).ref == (scaffold or m.p_scaffold)]
-    want_cb = V(bind['cb']) if bind['cb'] else V(cbparam)
+    sc = [term(n, env2) for n in fn2.find('CallExpr') if (strip(n.kids[0]).ref or strip(n.kids[0]).name) == (scaffold or m.p_scaffold)]
+    want_cb = cb_term if cb_term is not None else (V(bind['cb']) if bind['cb'] else V(cbparam))
     ok = len(sc) == 1 and len(sc[0][2]) == 4 and sc[0][2][0] == want_cb and sc[0][2][1] == V(bind['x'])
     if ok and bind['y'] is not None:
         ok = sc[0][2][2] == V(bind['y'])
@@ -1032,7 +1043,7 @@ def _r_cache_core(m, rep, R, kind, cbparam, core_fn, core_name, bind, cache_term
               '%s lookup calls scaffold as %s' % (kind, [show(x) for x in sc]))
     # what the callback filled in is what is stored: the result vector is touched by nothing between the callback
     # and the cache (positions in it are the rule ids the finalizer indexes with)
-    sc_nodes = [n for n in fn2.find('CallExpr') if strip(n.kids[0]).ref == (scaffold or m.p_scaffold)]
+    sc_nodes = [n for n in fn2.find('CallExpr') if (strip(n.kids[0]).ref or strip(n.kids[0]).name) == (scaffold or m.p_scaffold)]
     if len(sc_nodes) == 1 and len(sc_nodes[0].kids) == 5:
         res_refs = [x for x in sc_nodes[0].kids[4].walk() if x.kind == 'DeclRefExpr' and x.ref]
         if res_refs:
